@@ -55,10 +55,14 @@ type clIncState struct {
 	nextDen  int
 	deadPaid map[string]*big.Int // paid to positions that no longer exist, per denom
 	t0       time.Time           // block time at pool creation (time zero of the model)
+	paidOut  map[string]*big.Int // per denom: everything that reached an account from the incentive address (claims, withdrawals, returned forfeits)
+	deposited map[string]*big.Int // per denom: sum of the amounts of the records created
+	denomUptime map[string]time.Duration // records sharing a denom share the uptime
 }
 
 func newIncState() *clIncState {
-	return &clIncState{bound: map[uint64]map[string]*big.Rat{}, paid: map[uint64]map[string]*big.Int{}, join: map[uint64]time.Time{}, deadPaid: map[string]*big.Int{}}
+	return &clIncState{bound: map[uint64]map[string]*big.Rat{}, paid: map[uint64]map[string]*big.Int{}, join: map[uint64]time.Time{}, deadPaid: map[string]*big.Int{},
+		paidOut: map[string]*big.Int{}, deposited: map[string]*big.Int{}, denomUptime: map[string]time.Duration{}}
 }
 
 
@@ -168,12 +172,39 @@ func (e *clEngine) dumpIncImpl() string {
 
 func ratOfDec(raw *big.Int) *big.Rat { return new(big.Rat).SetFrac(raw, pow10(18)) }
 
+// incDenoms: the distinct incentive denoms in creation order (several records may share a denom).
 func (e *clEngine) incDenoms() []string {
 	var ds []string
+	seen := map[string]bool{}
 	for _, r := range e.inc.incs {
-		ds = append(ds, r.denom)
+		if !seen[r.denom] {
+			seen[r.denom] = true
+			ds = append(ds, r.denom)
+		}
 	}
 	return ds
+}
+
+func (e *clEngine) incScaleClass() string {
+	if e.ifactor.Equal(osmomath.OneDec()) {
+		return "unscaled"
+	}
+	return "scaled"
+}
+
+// liqClass: magnitude class of a liquidity value (raw 18 decimals).
+func liqClass(L *big.Int) string {
+	switch {
+	case L.Cmp(pow10(18)) < 0:
+		return "liq<1"
+	case L.Cmp(pow10(18+9)) < 0:
+		return "liq<1e9"
+	case L.Cmp(pow10(18+19)) < 0:
+		return "liq<1e19"
+	case L.Cmp(pow10(18+24)) < 0:
+		return "liq<1e24"
+	}
+	return "liq>=1e24"
 }
 
 // posCreated registers a new position id (creation or add-to-position).
@@ -205,6 +236,10 @@ func (e *clEngine) addPaid(id uint64, denom string, v *big.Int) {
 		m[denom] = new(big.Int)
 	}
 	m[denom].Add(m[denom], v)
+	if e.inc.paidOut[denom] == nil {
+		e.inc.paidOut[denom] = new(big.Int)
+	}
+	e.inc.paidOut[denom].Add(e.inc.paidOut[denom], v)
 }
 
 // creditInRange adds amount·liq/activeLiq to the bound of every live position whose range contains the current tick.
@@ -249,6 +284,28 @@ func (e *clEngine) advanceTime(d time.Duration) {
 			continue
 		}
 		emit := new(big.Rat).Mul(ratOfDec(r.rate), secs)
+		if r.remaining.Sign() > 0 {
+			e.o.Count("incentive.emitting:" + e.incScaleClass() + ":" + liqClass(L))
+		}
+		if c := emit.Cmp(r.remaining); c >= 0 && r.remaining.Sign() > 0 && started {
+			// the record RUNS DRY inside this interval (elapsed x rate overshoots what remains)
+			cls := "overshoot"
+			if c == 0 {
+				cls = "exactly-consumed"
+			}
+			e.o.Count("incentive.record-exhausted")
+			e.o.Count("incentive.record-exhausted:" + cls)
+			e.o.Count("incentive.record-exhausted:" + e.incScaleClass() + ":" + liqClass(L))
+			if r.future {
+				e.o.Count("incentive.record-exhausted:future-start")
+			}
+			for _, r2 := range e.inc.incs {
+				if r2 != r && r2.denom == r.denom && r2.remaining.Sign() > 0 {
+					e.o.Count("incentive.record-exhausted:another-record-of-the-denom-still-running")
+					break
+				}
+			}
+		}
 		if emit.Cmp(r.remaining) > 0 {
 			emit = new(big.Rat).Set(r.remaining)
 		}
@@ -257,10 +314,20 @@ func (e *clEngine) advanceTime(d time.Duration) {
 		}
 		e.creditInRange(r.denom, emit, nil)
 	}
+	if !active {
+		for _, r := range e.inc.incs {
+			if r.start.Before(t1) && r.remaining.Sign() > 0 {
+				e.o.Count("incentive.zero-liquidity-gap-before-end")
+				break
+			}
+		}
+	}
 	e.h.Ctx = e.h.Ctx.WithBlockTime(t1).WithBlockHeight(e.h.Ctx.BlockHeight() + 1)
 	e.inc.synced = false
 	e.o.Count("time.advance")
 	e.o.Emit(fmt.Sprintf("clp advance %d", int64(d)), "ok", true)
+	// what the next accumulator update will do with this interval, observed on a discarded branch
+	e.oracleSyncStep()
 	// sometimes bring the accumulators to now right away (as any pool-touching message would)
 	if e.r.Intn(2) == 0 {
 		k := e.h.App.ConcentratedLiquidityKeeper
@@ -274,16 +341,155 @@ func (e *clEngine) advanceTime(d time.Duration) {
 	}
 }
 
-func (e *clEngine) createIncentive() {
-	k := e.h.App.ConcentratedLiquidityKeeper
-	amt := new(big.Int).Mul(big.NewInt(int64(1+e.r.Intn(1000))), pow10(6))
-	rate := new(big.Int).Mul(big.NewInt(int64(1+e.r.Intn(100000))), pow10(15))
-	if e.r.Intn(4) == 0 { // slow emission: lasts over long idle periods
-		rate = new(big.Int).Mul(big.NewInt(int64(1+e.r.Intn(1000))), pow10(15))
+// overshootDuration: a block-time jump aimed at the moment the next running record runs dry: exactly there, 1 ns / 1 s past
+// it, well past it (overshoot), sometimes just short of it.
+func (e *clEngine) overshootDuration() time.Duration {
+	now := e.h.Ctx.BlockTime()
+	var best *big.Int
+	for _, r := range e.inc.incs {
+		if r.remaining.Sign() <= 0 || r.rate.Sign() <= 0 {
+			continue
+		}
+		// ns until dry = ceil(remaining / rate * 1e9), counted from the later of now / start
+		ttd := new(big.Rat).Quo(r.remaining, ratOfDec(r.rate))
+		ns := ratCeil(ttd.Mul(ttd, new(big.Rat).SetInt(pow10(9))))
+		if r.start.After(now) {
+			ns.Add(ns, big.NewInt(int64(r.start.Sub(now))))
+		}
+		if best == nil || ns.Cmp(best) < 0 {
+			best = ns
+		}
 	}
+	maxNs := big.NewInt(int64(60 * 24 * time.Hour))
+	if best == nil || best.Cmp(maxNs) > 0 {
+		e.o.Count("time.overshoot.no-record-in-reach")
+		return time.Duration(1+e.r.Intn(72)) * time.Hour
+	}
+	d := time.Duration(best.Int64())
+	switch e.r.Intn(6) {
+	case 0: // exactly at the boundary
+		e.o.Count("time.overshoot.exact")
+	case 1:
+		d += 1
+		e.o.Count("time.overshoot.+1ns")
+	case 2:
+		d += time.Second
+		e.o.Count("time.overshoot.+1s")
+	case 3:
+		if d > time.Second {
+			d -= time.Second
+		}
+		e.o.Count("time.overshoot.just-short")
+	default:
+		d = d*time.Duration(2+e.r.Intn(4)) + time.Duration(e.r.Intn(3600))*time.Second
+		e.o.Count("time.overshoot.far")
+	}
+	if d <= 0 {
+		d = 1
+	}
+	if d > 90*24*time.Hour {
+		d = 90 * 24 * time.Hour
+	}
+	return d
+}
+
+// createIncentiveClass creates an incentive record.  Classes: "legacy" (lasts for many advances), "dry" (small amount / high
+// rate: runs dry within seconds..hours), "tiny" (1..50 units), "big" (18-decimals magnitudes), "grain" (unscaled pools with
+// liquidity >= 1e19: the amount is a few units of 10^-18 per unit of liquidity, so every rounding of amount/liquidity is
+// worth whole tokens), "same-denom" (a further record of an existing denom and uptime, ending at another moment).
+// Rates are multiples of 10^9 raw, so rate x elapsed is exact for every nanosecond count.
+func (e *clEngine) createIncentiveClass(cls string) {
+	k := e.h.App.ConcentratedLiquidityKeeper
+	L := e.pool().GetLiquidity().BigInt()
+	unscaledBig := e.incScaleClass() == "unscaled" && L.Cmp(pow10(18+19)) >= 0
+	if cls == "" {
+		switch e.r.Intn(12) {
+		case 0, 1, 2:
+			cls = "legacy"
+		case 3, 4, 5:
+			cls = "dry"
+		case 6:
+			cls = "tiny"
+		case 7:
+			cls = "big"
+		case 8, 9:
+			cls = "same-denom"
+		default:
+			cls = "grain"
+		}
+	}
+	if (cls == "dry" || cls == "same-denom") && unscaledBig && e.r.Intn(2) == 0 {
+		cls = "grain"
+	}
+	if cls == "grain" && !unscaledBig {
+		cls = "dry"
+	}
+	denom := fmt.Sprintf("inc%d", e.inc.nextDen)
 	upt := cltypes.SupportedUptimes[0]
 	if e.r.Intn(2) == 0 {
 		upt = cltypes.SupportedUptimes[e.r.Intn(4)]
+	}
+	shared := false
+	if cls == "same-denom" {
+		if len(e.inc.incs) == 0 {
+			cls = "dry"
+		} else {
+			base := e.inc.incs[len(e.inc.incs)-1]
+			if e.r.Intn(3) == 0 {
+				base = e.inc.incs[e.r.Intn(len(e.inc.incs))]
+			}
+			denom, upt, shared = base.denom, base.uptime, true
+		}
+	}
+	// lifetime (seconds) of the record at full emission
+	life := int64(1 + e.r.Intn(7200))
+	switch e.r.Intn(4) {
+	case 0:
+		life = int64(1 + e.r.Intn(60))
+	case 1:
+		life = int64(1 + e.r.Intn(200000))
+	}
+	var amt, rate *big.Int
+	rateFor := func(a *big.Int) *big.Int { // a / life per second, as a multiple of 10^9 raw (at least 10^9)
+		rr := new(big.Int).Mul(a, pow10(18))
+		rr.Quo(rr, big.NewInt(life))
+		rr.Quo(rr, pow10(9))
+		rr.Add(rr, big.NewInt(1))
+		return rr.Mul(rr, pow10(9))
+	}
+	switch cls {
+	case "legacy":
+		amt = new(big.Int).Mul(big.NewInt(int64(1+e.r.Intn(1000))), pow10(6))
+		rate = new(big.Int).Mul(big.NewInt(int64(1+e.r.Intn(100000))), pow10(15))
+		if e.r.Intn(4) == 0 { // slow emission: lasts over long idle periods
+			rate = new(big.Int).Mul(big.NewInt(int64(1+e.r.Intn(1000))), pow10(15))
+		}
+	case "tiny":
+		amt = big.NewInt(int64(1 + e.r.Intn(50)))
+		rate = new(big.Int).Mul(big.NewInt(int64(1+e.r.Intn(1000))), pow10(15))
+	case "big":
+		amt = new(big.Int).Mul(big.NewInt(int64(1+e.r.Intn(1000))), pow10(6+e.mag+e.r.Intn(7)))
+		rate = rateFor(amt)
+	case "grain":
+		// amount = x * liquidity * 10^-18 with x in [0.5, 40): amount/liquidity is a handful of units of the 18th decimal
+		x := big.NewInt(int64(50 + e.r.Intn(3950)))
+		amt = new(big.Int).Mul(L, x)
+		amt.Quo(amt, pow10(38))
+		if amt.Sign() <= 0 {
+			amt = big.NewInt(1)
+		}
+		life = int64(1 + e.r.Intn(600))
+		rate = rateFor(amt)
+	default: // dry / same-denom
+		amt = new(big.Int).Mul(big.NewInt(int64(1+e.r.Intn(9))), pow10(e.r.Intn(7)))
+		if e.mag > 0 && e.r.Intn(3) == 0 {
+			amt.Mul(amt, pow10(e.mag))
+		}
+		amt.Add(amt, big.NewInt(int64(e.r.Intn(1000))))
+		rate = rateFor(amt)
+		if e.r.Intn(4) == 0 { // very high rate: the first nanoseconds exhaust it
+			rate = new(big.Int).Mul(amt, pow10(18+e.r.Intn(6)))
+		}
 	}
 	start := e.h.Ctx.BlockTime()
 	future := false
@@ -291,7 +497,6 @@ func (e *clEngine) createIncentive() {
 		start = start.Add(time.Duration(1+e.r.Intn(7200)) * time.Second)
 		future = true
 	}
-	denom := fmt.Sprintf("inc%d", e.inc.nextDen)
 	creator := e.accs[e.r.Intn(3)]
 	e.h.FundAcc(creator, sdk.NewCoins(sdk.NewCoin(denom, osmomath.NewIntFromBigInt(amt))))
 	var rec cltypes.IncentiveRecord
@@ -307,14 +512,126 @@ func (e *clEngine) createIncentive() {
 		return
 	}
 	e.o.Emit(line, "ok", true)
-	e.inc.nextDen++
+	if !shared {
+		e.inc.nextDen++
+	}
 	e.inc.synced = true // CreateIncentive syncs the accumulators first
 	e.inc.incs = append(e.inc.incs, &clInc{id: rec.IncentiveId, denom: denom, rate: rate, start: start, uptime: upt, initial: amt,
 		remaining: new(big.Rat).SetInt(amt), future: future, lastReal: new(big.Rat).SetInt(amt)})
+	if e.inc.deposited[denom] == nil {
+		e.inc.deposited[denom] = new(big.Int)
+	}
+	e.inc.deposited[denom].Add(e.inc.deposited[denom], amt)
+	e.inc.denomUptime[denom] = upt
 	e.o.Count("incentive.ok")
+	e.o.Count("incentive.class." + cls)
+	if shared {
+		e.o.Count("incentive.shares-denom-with-earlier-record")
+	}
+	if cls == "grain" {
+		e.o.Count("incentive.unscaled-large-liquidity-grain:" + liqClass(L))
+	}
 	e.o.Count(fmt.Sprintf("incentive.uptime-%s", upt))
 	if future {
 		e.o.Count("incentive.future-start")
+	}
+}
+
+// oracleSyncStep (keys incentives:sync-*): ONE accumulator update observed on a discarded branch, right after a block-time
+// advance: the uptime accumulators and the incentive records before and after `UpdatePoolUptimeAccumulatorsToNow`.
+// Zero tolerance, exact integers:
+//   credited per unit of liquidity x qualifying liquidity <= decrease of the records of that (uptime, denom) x scaling factor
+//   a record decreases by at most rate x elapsed, never increases, not before its start, not while liquidity < 1.
+func (e *clEngine) oracleSyncStep() {
+	k := e.h.App.ConcentratedLiquidityKeeper
+	if len(e.inc.incs) == 0 {
+		return
+	}
+	p := e.pool()
+	L := p.GetLiquidity().BigInt()
+	now := e.h.Ctx.BlockTime()
+	elapsed := big.NewInt(int64(now.Sub(p.GetLastLiquidityUpdate())))
+	recs0, err0 := k.GetAllIncentiveRecordsForPool(e.ctx(), e.poolId)
+	vals0, err1 := k.GetUptimeAccumulatorValues(e.ctx(), e.poolId)
+	cctx, _ := e.h.Ctx.CacheContext()
+	var serr error
+	if !catch(func() { serr = k.UpdatePoolUptimeAccumulatorsToNow(cctx, e.poolId) }) || serr != nil || err0 != nil || err1 != nil {
+		e.o.Fail("incentives:sync-failed", fmt.Sprintf("op %d: %v | %s", e.opn, serr, e.replay()))
+		return
+	}
+	recs1, _ := k.GetAllIncentiveRecordsForPool(cctx, e.poolId)
+	vals1, _ := k.GetUptimeAccumulatorValues(cctx, e.poolId)
+	after := map[uint64]*big.Int{}
+	for _, r := range recs1 {
+		after[r.IncentiveId] = r.IncentiveRecordBody.RemainingCoin.Amount.BigInt()
+	}
+	type ud struct {
+		u int
+		d string
+	}
+	dec := map[ud]*big.Int{}
+	exhausted := map[ud]bool{}
+	factor := e.ifactor.BigInt()
+	cls := e.incScaleClass()
+	for _, r := range recs0 {
+		b := r.IncentiveRecordBody
+		r0 := b.RemainingCoin.Amount.BigInt()
+		r1 := after[r.IncentiveId]
+		if r1 == nil {
+			r1 = new(big.Int) // fully emitted records are removed
+		}
+		key := ud{uptimeIndex(r.MinUptime), b.RemainingCoin.Denom}
+		d := new(big.Int).Sub(r0, r1)
+		where := fmt.Sprintf("op %d rec %d (%s, uptime %s, rate %s) remaining %s -> %s elapsed %sns liquidity %s | %s", e.opn, r.IncentiveId, b.RemainingCoin.Denom, r.MinUptime, b.EmissionRate, sd(r0), sd(r1), elapsed, sd(L), e.replay())
+		if d.Sign() < 0 {
+			e.o.Fail("incentives:sync-remaining-increased", where)
+		}
+		if d.Sign() > 0 {
+			if L.Cmp(pow10(18)) < 0 {
+				e.o.Fail("incentives:sync-emission-without-liquidity", where)
+			}
+			if !b.StartTime.Before(now) {
+				e.o.Fail("incentives:sync-emission-before-start", where)
+			}
+			// decrease <= rate x elapsed  (raw: d x 1e9 <= rate x ns)
+			if new(big.Int).Mul(d, pow10(9)).Cmp(new(big.Int).Mul(b.EmissionRate.BigInt(), elapsed)) > 0 {
+				e.o.Fail("incentives:sync-record-decrease-exceeds-rate-x-elapsed", where)
+			}
+		}
+		if dec[key] == nil {
+			dec[key] = new(big.Int)
+		}
+		dec[key].Add(dec[key], d)
+		if r1.Sign() == 0 && r0.Sign() > 0 {
+			exhausted[key] = true
+		}
+	}
+	for u := range vals1 {
+		if u >= len(vals0) {
+			break
+		}
+		for _, c := range vals1[u] {
+			credited := new(big.Int).Sub(c.Amount.BigInt(), vals0[u].AmountOf(c.Denom).BigInt())
+			if credited.Sign() == 0 {
+				continue
+			}
+			key := ud{u, c.Denom}
+			d := dec[key]
+			if d == nil {
+				d = new(big.Int)
+			}
+			state := "record-running"
+			if exhausted[key] {
+				state = "record-exhausted"
+			}
+			// credited x L <= decrease x factor   (all raw 18-decimal integers: both sides carry 10^36)
+			if new(big.Int).Mul(credited, L).Cmp(new(big.Int).Mul(d, factor)) > 0 {
+				e.o.Fail("incentives:sync-credit-exceeds-record-decrease:"+cls+":"+state,
+					fmt.Sprintf("op %d uptime %d denom %s: credited per liquidity %s x liquidity %s > record decrease %s x factor %s (elapsed %sns) | %s", e.opn, u, c.Denom, sd(credited), sd(L), sd(d), e.ifactor, elapsed, e.replay()))
+			} else {
+				e.o.Count("incentive.sync-step-checked:" + state)
+			}
+		}
 	}
 }
 
@@ -329,6 +646,7 @@ func (e *clEngine) collectIncentivesOp() {
 		return
 	}
 	var resp *cltypes.MsgCollectIncentivesResponse
+	balBefore := e.h.App.BankKeeper.GetAllBalances(e.ctx(), e.accs[q.owner])
 	err := e.atomic(func(ctx sdk.Context) error {
 		var err error
 		resp, err = ms.CollectIncentives(ctx, &cltypes.MsgCollectIncentives{PositionIds: []uint64{q.id}, Sender: e.accs[q.owner].String()})
@@ -352,8 +670,16 @@ func (e *clEngine) collectIncentivesOp() {
 	if !resp.ForfeitedIncentives.IsZero() {
 		e.o.Count("collect.incentives-forfeited")
 	}
-	for _, coin := range resp.CollectedIncentives {
-		e.addPaid(q.id, coin.Denom, coin.Amount.BigInt())
+	// what reached the owner's account (bank), per incentive denom: exactly the collected coins
+	balAfter := e.h.App.BankKeeper.GetAllBalances(e.ctx(), e.accs[q.owner])
+	for _, d := range e.incDenoms() {
+		delta := balAfter.AmountOf(d).Sub(balBefore.AmountOf(d))
+		if !delta.Equal(resp.CollectedIncentives.AmountOf(d)) {
+			e.o.Fail("incentives:collect-moved-other-than-collected", fmt.Sprintf("op %d pos %d denom %s moved %s collected %s | %s", e.opn, q.id, d, delta, resp.CollectedIncentives, e.replay()))
+		}
+		if delta.IsPositive() {
+			e.addPaid(q.id, d, delta.BigInt())
+		}
 	}
 	e.checkUnmetPaid(q, resp.CollectedIncentives, "collect")
 	q.untouched = false
@@ -409,8 +735,19 @@ func (e *clEngine) incAfter(s incSnap, owner int, what string, L *big.Int) {
 	stillActive := L.Cmp(pow10(18)) >= 0
 	if stillActive {
 		// forfeited incentives go back to the accumulators: credited to whoever is in range now
-		for _, coin := range s.forf {
-			e.creditInRange(coin.Denom, new(big.Rat).SetInt(coin.Amount.BigInt()), L)
+		// On pools past the incentive scaling migration the forfeit is redeposited in SCALED form, i.e. the position's
+		// entitlement BEFORE its truncation to whole tokens, while the reported forfeit is the truncated amount: up to one
+		// unit more per denom reaches the accumulator (also when the reported amount is zero).  Not an over-payment: the
+		// fraction was emitted by the record (incentives:claims-exceed-emitted has zero tolerance).
+		age := e.h.Ctx.BlockTime().Sub(e.inc.join[s.q.id])
+		for _, d := range e.incDenoms() {
+			amt := new(big.Int).Set(s.forf.AmountOf(d).BigInt())
+			if e.incScaleClass() == "scaled" && age < e.inc.denomUptime[d] {
+				amt.Add(amt, big.NewInt(1))
+			}
+			if amt.Sign() > 0 {
+				e.creditInRange(d, new(big.Rat).SetInt(amt), L)
+			}
 		}
 		if !s.forf.IsZero() {
 			e.o.Count("incentive.forfeit-redeposited")
@@ -443,66 +780,77 @@ func (e *clEngine) posGone(id uint64) {
 }
 
 func (e *clEngine) checkBound(id uint64, claimable sdk.Coins, where string) {
-	for _, r := range e.inc.incs {
-		tot := new(big.Int).Set(claimable.AmountOf(r.denom).BigInt())
-		if v := e.inc.paid[id][r.denom]; v != nil {
+	for _, d := range e.incDenoms() {
+		tot := new(big.Int).Set(claimable.AmountOf(d).BigInt())
+		if v := e.inc.paid[id][d]; v != nil {
 			tot.Add(tot, v)
 		}
 		b := new(big.Rat)
-		if v := e.inc.bound[id][r.denom]; v != nil {
+		if v := e.inc.bound[id][d]; v != nil {
 			b.Set(v)
 		}
 		b.Add(b, big.NewRat(2, 1)) // dust: every credit is truncated in the pool's favour; 2 units of slack for the bound's own rounding
 		if new(big.Rat).SetInt(tot).Cmp(b) > 0 {
-			e.o.Fail("incentives:paid-beyond-in-range-time:"+where, fmt.Sprintf("op %d pos %d denom %s claimed+claimable %s bound %s (rate %s uptime %s)", e.opn, id, r.denom, tot, b.FloatString(3), r.rate, r.uptime))
+			e.o.Fail("incentives:paid-beyond-in-range-time:"+where, fmt.Sprintf("op %d pos %d denom %s claimed+claimable %s bound %s (uptime %s) | %s", e.opn, id, d, tot, b.FloatString(3), e.inc.denomUptime[d], e.replay()))
 		} else if tot.Sign() > 0 {
 			e.o.Count("incentive.bound-checked-nonzero")
 		}
 	}
 }
 
-// oracleIncentives: after every op.
+// oracleIncentives: after every op, on a discarded branch whose accumulators were brought to the current block time (what
+// any pool-touching message would do first).  Everything is judged against the engine's own log (records created, block
+// times, liquidity in range, coins that reached accounts); ZERO tolerance in the direction "claims exceed what was paid in":
+//   per denom   paid out + claimable + forfeited                 <= emitted by the records (keeper)       incentives:claims-exceed-emitted
+//               paid out + claimable + forfeited                 <= sum of min(rate x qualifying time, amount) (log)   incentives:claims-exceed-logged-emission
+//               paid out + claimable + forfeited + remaining     <= deposited                              incentives:claims-exceed-deposits
+//               incentive address balance >= claimable + forfeited + remaining                            solvency:incentive-balance<claimable+remaining
+//   per record  remaining = amount - min(rate x qualifying time, amount)                                  incentives:remaining-*
 func (e *clEngine) oracleIncentives() {
 	if len(e.inc.incs) == 0 {
 		return
 	}
 	k := e.h.App.ConcentratedLiquidityKeeper
 	now := e.h.Ctx.BlockTime()
+	cctx, _ := e.h.Ctx.CacheContext()
+	var serr error
+	if !catch(func() { serr = k.UpdatePoolUptimeAccumulatorsToNow(cctx, e.poolId) }) || serr != nil {
+		e.o.Fail("incentives:sync-failed", fmt.Sprintf("op %d: %v | %s", e.opn, serr, e.replay()))
+		return
+	}
 	ids := make([]uint64, 0, len(e.pos))
 	for id := range e.pos {
 		ids = append(ids, id)
 	}
 	sort.Slice(ids, func(i, j int) bool { return ids[i] < ids[j] })
-	sum := map[string]*big.Int{}
+	denoms := e.incDenoms()
+	claimC, claimF := sdk.Coins{}, sdk.Coins{}
 	otherActive := e.pool().GetLiquidity().BigInt().Cmp(pow10(18)) >= 0
+	queriesOK := true
 	for _, id := range ids {
-		var c sdk.Coins
+		var c, f sdk.Coins
 		var err error
-		if !catch(func() { c, _, err = k.GetClaimableIncentives(e.ctx(), id) }) || err != nil {
-			e.o.Fail("incentives:claimable-query-failed", fmt.Sprintf("op %d pos %d %v", e.opn, id, err))
+		if !catch(func() { c, f, err = k.GetClaimableIncentives(cctx, id) }) || err != nil {
+			e.o.Fail("incentives:claimable-query-failed", fmt.Sprintf("op %d pos %d %v | %s", e.opn, id, err, e.replay()))
+			queriesOK = false
 			continue
 		}
+		claimC = claimC.Add(c...)
+		claimF = claimF.Add(f...)
 		e.checkBound(id, c, "live")
 		age := now.Sub(e.inc.join[id])
-		for _, r := range e.inc.incs {
-			a := c.AmountOf(r.denom).BigInt()
-			if sum[r.denom] == nil {
-				sum[r.denom] = new(big.Int)
+		for _, d := range denoms {
+			upt := e.inc.denomUptime[d]
+			if age < upt && c.AmountOf(d).IsPositive() && otherActive {
+				e.o.Fail("incentives:unmet-uptime-paid:claimable", fmt.Sprintf("op %d pos %d age %s uptime %s claimable %s | %s", e.opn, id, age, upt, c, e.replay()))
 			}
-			sum[r.denom].Add(sum[r.denom], a)
-			if v := e.inc.paid[id][r.denom]; v != nil {
-				sum[r.denom].Add(sum[r.denom], v)
-			}
-			if age < r.uptime && a.Sign() > 0 && otherActive {
-				e.o.Fail("incentives:unmet-uptime-paid:claimable", fmt.Sprintf("op %d pos %d age %s uptime %s claimable %s", e.opn, id, age, r.uptime, c))
-			}
-			if age < r.uptime {
+			if age < upt {
 				e.o.Count("incentive.unmet-uptime-checked")
 			}
 		}
 	}
 	// (ii) the records
-	recs, err := k.GetAllIncentiveRecordsForPool(e.ctx(), e.poolId)
+	recs, err := k.GetAllIncentiveRecordsForPool(cctx, e.poolId)
 	if err != nil {
 		return
 	}
@@ -510,39 +858,81 @@ func (e *clEngine) oracleIncentives() {
 	for _, r := range recs {
 		real[r.IncentiveId] = ratOfDec(r.IncentiveRecordBody.RemainingCoin.Amount.BigInt())
 	}
+	remReal := map[string]*big.Rat{}    // per denom: sum of the remaining amounts of the keeper's records (exact 18-decimal values)
+	emitReal := map[string]*big.Rat{}   // per denom: sum of amount - remaining (keeper)
+	emitLog := map[string]*big.Rat{}    // per denom: sum of min(rate x qualifying time, amount) (engine log)
+	hasFuture := map[string]bool{}
+	anyDry := map[string]bool{}
+	for _, d := range denoms {
+		remReal[d], emitReal[d], emitLog[d] = new(big.Rat), new(big.Rat), new(big.Rat)
+	}
 	for _, r := range e.inc.incs {
 		rr, ok := real[r.id]
 		if !ok {
 			rr = new(big.Rat) // fully emitted records are removed from the store
 		}
 		if rr.Sign() < 0 || rr.Cmp(new(big.Rat).SetInt(r.initial)) > 0 {
-			e.o.Fail("incentives:remaining-out-of-range", fmt.Sprintf("op %d rec %d remaining %s initial %s", e.opn, r.id, rr.FloatString(6), r.initial))
+			e.o.Fail("incentives:remaining-out-of-range", fmt.Sprintf("op %d rec %d remaining %s initial %s | %s", e.opn, r.id, rr.FloatString(6), r.initial, e.replay()))
 		}
 		if rr.Cmp(r.lastReal) > 0 {
-			e.o.Fail("incentives:remaining-increased", fmt.Sprintf("op %d rec %d %s -> %s", e.opn, r.id, r.lastReal.FloatString(6), rr.FloatString(6)))
+			e.o.Fail("incentives:remaining-increased", fmt.Sprintf("op %d rec %d %s -> %s | %s", e.opn, r.id, r.lastReal.FloatString(6), rr.FloatString(6), e.replay()))
 		}
 		r.lastReal = rr
-		// the keeper emits lazily: it can never have emitted more than the log says; after a sync exactly as much
-		if rr.Cmp(r.remaining) < 0 && !r.future {
-			e.o.Fail("incentives:remaining-below-log", fmt.Sprintf("op %d rec %d keeper %s log %s", e.opn, r.id, rr.FloatString(6), r.remaining.FloatString(6)))
+		// per record: emitted = min(rate x qualifying time, amount), exactly (rates are multiples of 10^9 raw: no truncation)
+		if !r.future {
+			if rr.Cmp(r.remaining) < 0 {
+				e.o.Fail("incentives:remaining-below-log", fmt.Sprintf("op %d rec %d keeper %s log %s | %s", e.opn, r.id, rr.FloatString(6), r.remaining.FloatString(6), e.replay()))
+			} else if rr.Cmp(r.remaining) != 0 {
+				e.o.Fail("incentives:remaining-mismatch-after-sync", fmt.Sprintf("op %d rec %d keeper %s log %s | %s", e.opn, r.id, rr.FloatString(6), r.remaining.FloatString(6), e.replay()))
+			} else {
+				e.o.Count("incentive.remaining-checked")
+			}
+		} else {
+			hasFuture[r.denom] = true
 		}
-		if e.inc.synced && !r.future && rr.Cmp(r.remaining) != 0 {
-			e.o.Fail("incentives:remaining-mismatch-after-sync", fmt.Sprintf("op %d rec %d keeper %s log %s", e.opn, r.id, rr.FloatString(6), r.remaining.FloatString(6)))
-		} else if e.inc.synced {
-			e.o.Count("incentive.remaining-checked")
+		if rr.Sign() == 0 {
+			anyDry[r.denom] = true
 		}
-		// nothing is paid or claimable beyond what the record has emitted (+ what dead positions took)
-		tot := new(big.Int)
-		if sum[r.denom] != nil {
-			tot.Add(tot, sum[r.denom])
+		remReal[r.denom].Add(remReal[r.denom], rr)
+		emitReal[r.denom].Add(emitReal[r.denom], new(big.Rat).Sub(new(big.Rat).SetInt(r.initial), rr))
+		emitLog[r.denom].Add(emitLog[r.denom], new(big.Rat).Sub(new(big.Rat).SetInt(r.initial), r.remaining))
+	}
+	if !queriesOK {
+		return
+	}
+	bal := e.h.App.BankKeeper.GetAllBalances(cctx, e.pool().GetIncentivesAddress())
+	for _, d := range denoms {
+		paid := new(big.Int)
+		if v := e.inc.paidOut[d]; v != nil {
+			paid.Set(v)
 		}
-		if v := e.inc.deadPaid[r.denom]; v != nil {
-			tot.Add(tot, v)
+		owed := new(big.Int).Add(claimC.AmountOf(d).BigInt(), claimF.AmountOf(d).BigInt())
+		tot := new(big.Int).Add(paid, owed)
+		cls := e.incScaleClass() + ":all-records-running"
+		if anyDry[d] {
+			cls = e.incScaleClass() + ":some-record-ran-dry"
 		}
-		emitted := new(big.Rat).Sub(new(big.Rat).SetInt(r.initial), rr)
-		// (the claimable query itself brings the accumulators to now on a branch: compare only when the store is in sync too)
-		if e.inc.synced && new(big.Rat).SetInt(tot).Cmp(emitted) > 0 {
-			e.o.Fail("incentives:emitted-beyond-amount", fmt.Sprintf("op %d rec %d claimed+claimable %s emitted %s", e.opn, r.id, tot, emitted.FloatString(6)))
+		what := func() string {
+			return fmt.Sprintf("op %d denom %s: paid out %s + claimable %s + forfeited %s | emitted (keeper) %s emitted (log) %s remaining %s deposited %s balance %s | %s", e.opn, d, paid,
+				claimC.AmountOf(d), claimF.AmountOf(d), emitReal[d].FloatString(6), emitLog[d].FloatString(6), remReal[d].FloatString(6), e.inc.deposited[d], bal.AmountOf(d), e.replay())
+		}
+		if new(big.Rat).SetInt(tot).Cmp(emitReal[d]) > 0 {
+			e.o.Fail("incentives:claims-exceed-emitted:"+cls, what())
+		}
+		if !hasFuture[d] && new(big.Rat).SetInt(tot).Cmp(emitLog[d]) > 0 {
+			e.o.Fail("incentives:claims-exceed-logged-emission:"+cls, what())
+		}
+		if new(big.Rat).Add(new(big.Rat).SetInt(tot), remReal[d]).Cmp(new(big.Rat).SetInt(e.inc.deposited[d])) > 0 {
+			e.o.Fail("incentives:claims-exceed-deposits:"+cls, what())
+		}
+		if new(big.Rat).SetInt(bal.AmountOf(d).BigInt()).Cmp(new(big.Rat).Add(new(big.Rat).SetInt(owed), remReal[d])) < 0 {
+			e.o.Fail("solvency:incentive-balance<claimable+remaining:"+cls, what())
+		}
+		if new(big.Int).Add(bal.AmountOf(d).BigInt(), paid).Cmp(e.inc.deposited[d]) != 0 {
+			e.o.Fail("incentives:balance!=deposited-paid-out", what())
+		}
+		if tot.Sign() > 0 {
+			e.o.Count("incentive.conservation-checked-nonzero:" + cls)
 		}
 	}
 }
